@@ -31,6 +31,7 @@ type PeerOp struct {
 }
 
 type C05Session struct {
+	Shared   bool      `json:"shared"`  // all senders hand the SAME message object to Send (as the repository's own tests do)
 	Senders  [][]int64 `json:"senders"` // per sender goroutine: delay (ns) before each of its sends
 	Peer     []PeerOp  `json:"peer"`
 	GapAfter int64     `json:"gap_after"` // virtual ns between the end of this connection and the next session (-1: the full settling time)
@@ -81,6 +82,7 @@ func genC05(t *rapid.T) *C05Case {
 		}
 		sort.SliceStable(ss.Peer, func(i, j int) bool { return ss.Peer[i].At < ss.Peer[j].At })
 		ss.GapAfter = rapid.SampledFrom([]int64{-1, 0, 1e6, int64(c.N) * 5e8}).Draw(t, "gapAfter")
+		ss.Shared = rapid.IntRange(0, 5).Draw(t, "shared") == 0
 		c.Sessions = append(c.Sessions, ss)
 	}
 	return c
@@ -174,6 +176,7 @@ func checkC05(c *C05Case, rec *evid.Rec) (vs []pbt.Violation) {
 			sess := cur
 			var wg sync.WaitGroup
 			var mu sync.Mutex
+			sharedMsg := rig.NewApp(fmt.Sprintf("s%d-shared", si))
 			t0 := time.Now()
 			for gi := range ss.Senders {
 				gi := gi
@@ -185,13 +188,16 @@ func checkC05(c *C05Case, rec *evid.Rec) (vs []pbt.Violation) {
 							time.Sleep(time.Duration(d))
 						}
 						msg := rig.NewApp(fmt.Sprintf("s%d-g%d-%d", si, gi, j))
+						if ss.Shared {
+							msg = sharedMsg
+						}
 						start := time.Now()
 						err := sess.Send(msg)
 						end := time.Now()
 						mu.Lock()
 						if err != nil {
 							o.sendErr = append(o.sendErr, err.Error())
-						} else {
+						} else if !ss.Shared { // a shared object's number is overwritten by the next sender
 							o.sends = append(o.sends, sendRec{gi, msg.HeaderBuilder().MsgSeqNum(), start, end})
 						}
 						mu.Unlock()
@@ -410,6 +416,9 @@ func checkC05(c *C05Case, rec *evid.Rec) (vs []pbt.Violation) {
 		rec.Hist("with-retransmissions")
 	}
 	for i, ss := range c.Sessions {
+		if ss.Shared {
+			rec.Hist("shared-message-object")
+		}
 		if i+1 < len(c.Sessions) && ss.GapAfter >= 0 {
 			rec.Hist("next-session-starts-early")
 		}
